@@ -113,6 +113,11 @@ def ops_for(fam):
     add("b = a;", lambda s: s.__setitem__("b", copy.deepcopy(s["a"])))
     add("a = b;", lambda s: s.__setitem__("a", copy.deepcopy(s["b"])))
     add("a = a;", lambda s: None)
+    # a host that goes on using the context after a return: the returned value was copied, the variables are what they were
+    add("return a;", lambda s: None)
+    add("return t;", lambda s: None)
+    add("return u;", lambda s: None)
+    add("return t.at(0);", lambda s: None if s["t"] else "reject")
     if fam in ("S", "X"):
         add("a = %s;" % lit("new"), lambda s: s.__setitem__("a", b"new"))
         add("a.concat(%s);" % lit("1"), lambda s: s.__setitem__("a", s["a"] + b"1"))
